@@ -9,6 +9,9 @@ use crate::quire::{Failure, Mode, Runner};
 use crate::stats::{Pr, Stats};
 use crate::sut::{Img, Sp, Sut};
 
+/// set once by main before any run: the thorough tier also draws long histories
+pub static THOROUGH: std::sync::atomic::AtomicBool = std::sync::atomic::AtomicBool::new(false);
+
 pub const STREAM_QUIRE_C04: u64 = 4;
 pub const STREAM_QUIRE_C12: u64 = 12;
 
@@ -46,7 +49,11 @@ pub fn draw_swarm(rng: &mut Prng, mode: Mode, st: &mut Stats) -> Swarm {
         QT::Q32 => Pr::runs_q32,
     });
     // many short runs: median about 8, tail to 96
-    let len = rng.geometric(1, 96, 11, 12) as usize;
+    let mut len = rng.geometric(1, 96, 11, 12) as usize;
+    if THOROUGH.load(std::sync::atomic::Ordering::Relaxed) && rng.chance(1, 8) {
+        // thorough tier: one run in eight is a long history (median ~70, up to 400 events)
+        len = rng.geometric(1, 400, 99, 100) as usize;
+    }
     let init_via = rng.below(4) as u8;
     let mut w_regime = [0u32; 7];
     for w in w_regime.iter_mut() {
@@ -612,8 +619,9 @@ fn gen_t<S: Sut>(rng: &mut Prng, sw: &Swarm, st: &mut Stats, mut trace: Option<&
     let mut redrawn = 0u64;
     let mut fallback = 0u64;
     let mut cancels = 0u64;
+    let mut boundaries = 0u64;
     for _ in 0..sw.len {
-        let mut chosen: Option<(Ev, bool)> = None;
+        let mut chosen: Option<(Ev, bool, bool)> = None;
         for _try in 0..24 {
             let mut kind = rng.weighted(&sw.w_event);
             // C12: a state that was just placed on a rounding boundary (injected image, boundary
@@ -626,6 +634,7 @@ fn gen_t<S: Sut>(rng: &mut Prng, sw: &Swarm, st: &mut Stats, mut trace: Option<&
                 kind = if rng.chance(1, 2) { 9 } else { 10 };
             }
             let mut is_cancel = false;
+            let mut is_boundary = false;
             let ev = match kind {
                 0 => Ev::Acc(draw_acc(rng, sw, &mut prev, false)),
                 1 => match &last_acc {
@@ -682,7 +691,10 @@ fn gen_t<S: Sut>(rng: &mut Prng, sw: &Swarm, st: &mut Stats, mut trace: Option<&
                 9 => Ev::Split2,
                 10 => Ev::Split3,
                 12 => match (runner.poisoned, boundary_acc(rng, qt, &runner.r)) {
-                    (false, Some(a)) => Ev::Acc(a),
+                    (false, Some(a)) => {
+                        is_boundary = true;
+                        Ev::Acc(a)
+                    }
                     _ => Ev::Acc(draw_acc(rng, sw, &mut prev, false)),
                 },
                 _ => {
@@ -711,18 +723,21 @@ fn gen_t<S: Sut>(rng: &mut Prng, sw: &Swarm, st: &mut Stats, mut trace: Option<&
                 }
             };
             if runner.valid(&ev).is_ok() {
-                chosen = Some((ev, is_cancel));
+                chosen = Some((ev, is_cancel, is_boundary));
                 break;
             }
             redrawn += 1;
         }
-        let (ev, is_cancel) = match chosen {
+        let (ev, is_cancel, is_boundary) = match chosen {
             Some(c) => c,
             None => {
                 fallback += 1;
-                (Ev::Clear(0), false)
+                (Ev::Clear(0), false, false)
             }
         };
+        if is_boundary {
+            boundaries += 1;
+        }
         if is_cancel {
             cancels += 1;
         }
@@ -747,5 +762,6 @@ fn gen_t<S: Sut>(rng: &mut Prng, sw: &Swarm, st: &mut Stats, mut trace: Option<&
     st.add(Pr::regen, redrawn);
     st.add(Pr::gen_fallback, fallback);
     st.add(Pr::ev_cancel_prev, cancels);
+    st.add(Pr::ev_boundary, boundaries);
     Generated { case, failure, digest, nontrivial }
 }
